@@ -46,6 +46,37 @@ func (c *simCtx) isRecvField(t *T, field string) bool {
 }
 func (c *simCtx) isM(t *T) bool { return c.isRecvField(t, c.a.MField) }
 
+// isPopFn: fn removes and returns the oldest task of a queue
+func (c *simCtx) isPopFn(fn *ssa.Function) bool {
+	for _, p := range c.a.Pops {
+		if p == fn {
+			return true
+		}
+	}
+	return fn != nil && fn == c.a.Pop
+}
+
+// isPopCall: t is the result tuple of a pop primitive
+func (c *simCtx) isPopCall(t *T) bool {
+	if t == nil || t.Op != "call" {
+		return false
+	}
+	for _, p := range c.a.Pops {
+		if t.S == fnKey(p) {
+			return true
+		}
+	}
+	return c.a.Pop != nil && t.S == fnKey(c.a.Pop)
+}
+
+// popFailed: the condition says a pop found nothing: its error is non-nil, or its ok flag is false
+func (c *simCtx) popFailed(a *T, v bool) bool {
+	if a.Op == "eq" && !v && a.A[1].Op == "nil" && a.A[0].Op == "ext" && c.isPopCall(a.A[0].A[0]) {
+		return true
+	}
+	return a.Op == "ext" && a.C == 2 && !v && c.isPopCall(a.A[0])
+}
+
 // isCount: the number of warriors: the counter field, or the length of the warrior list
 func (c *simCtx) isCount(t *T) bool {
 	t = stripConv(t)
